@@ -172,8 +172,23 @@ class Runtime:
                 jobs.append([job.status.value, job.next_run.timestamp_nanos() if job.next_run is not None else None])
         evs = self.ev[self.ev_seen:]
         self.ev_seen = len(self.ev)
+        # what the PUBLIC control objects report (status / next_run_datetime properties), and their equality
+        reported = []
+        eq_bad = []
+        live = [(i, c) for i, c in enumerate(self.controls) if c is not None]
+        for i, c in live:
+            nrd = c.next_run_datetime
+            reported.append([i, c.status.value, None if nrd is None else
+                             [nrd.year, nrd.month, nrd.day, nrd.hour, nrd.minute, nrd.second, nrd.microsecond,
+                              nrd.tzinfo is None]])
+            twin = type(c)(c._job)
+            if not (c == twin) or (c != twin) or c == object() or c == c._job:
+                eq_bad.append([i, 'twin'])
+        for (i, a), (j, b) in zip(live, live[1:]):
+            if a == b or not (a != b):
+                eq_bad.append([i, j])
         return {
-            'out': outcome,
+            'out': outcome, 'reported': reported, 'ctl_eq_bad': eq_bad,
             'enabled': sched._enabled,
             'timer': self.loop.when_ns(sched.timer) if sched.timer is not None else None,
             'queue': [self.jobidx.get(id(j), 999) for j in sched.jobs],
